@@ -3,7 +3,7 @@
 # Confirms a seeded change in a scratch worktree (builds, existing suite passes, demo fails with / passes without it),
 # then applies it to /repo, runs the property's check, and undoes it straight afterwards.
 set -u
-D=$1; PROP=$2; TIER=${3:-quick}
+D=$(realpath $1); PROP=$2; TIER=${3:-quick}
 export GOFLAGS=-mod=mod GOPROXY=off GOSUMDB=off GOTOOLCHAIN=local
 WT=/tmp/verif-seed-wt
 rm -rf $WT; git -C /repo worktree prune; git -C /repo worktree add -q --detach $WT HEAD || exit 2
@@ -17,15 +17,25 @@ for f in $D/*_test.go; do cp $f $WT/$pkgdir/; done
 with=$(cd $WT && timeout 400 bash -c "$cmd" >/tmp/seed-demo-with.log 2>&1; echo $?)
 git -C $WT apply -R $D/patch.diff
 without=$(cd $WT && timeout 400 bash -c "$cmd" >/tmp/seed-demo-without.log 2>&1; echo $?)
-git -C /repo worktree remove --force $WT
 echo "CONFIRM suite_failures=$suite demo_with_patch_rc=$with demo_without_patch_rc=$without"
-# now the checks, on /repo itself
+# now the checks: against /repo itself (apply, check, undo) unless SEEDED_SCRATCH=1, in which case the same tree
+# (HEAD + patch) is checked in the scratch worktree so that a background run using /repo is not disturbed
 cd /verif
-git -C /repo apply $D/patch.diff || { echo "RESULT cannot apply to /repo"; exit 3; }
+if [ "${SEEDED_SCRATCH:-0}" = 1 ]; then
+  git -C $WT checkout -q -- . ; git -C $WT clean -fdq; git -C $WT apply $D/patch.diff
+  export VERIF_REPO=$WT VERIF_OUT=/tmp/verif-seed-out
+else
+  git -C /repo worktree remove --force $WT
+  git -C /repo apply $D/patch.diff || { echo "RESULT cannot apply to /repo"; exit 3; }
+fi
 for p in $PROP; do
   out=$(./check $p $TIER 2>&1); rc=$?
   echo "CHECK $p rc=$rc $(echo "$out" | grep -m1 '^  class=' | sed 's/ seed=.*//')"
   echo "$out" | grep -m2 -A6 "^VIOLATION" | cut -c1-400 | head -14
 done
-git -C /repo checkout -- . ; git -C /repo status --short | head -3
-rm -rf /verif/replays/$PROP 2>/dev/null
+if [ "${SEEDED_SCRATCH:-0}" = 1 ]; then
+  git -C /repo worktree remove --force $WT; rm -rf /tmp/verif-seed-out
+else
+  git -C /repo checkout -- . ; git -C /repo status --short | head -3
+  rm -rf /verif/replays/$PROP 2>/dev/null
+fi
